@@ -131,3 +131,163 @@ Proof.
     destruct (cur_tx th); try destruct (mlookup (s_map s) q0); cbn [C14_Proofs2.b2n andb Bool.eqb] in *; try lia.
   all: rewrite Heqo0, Heqo in I; lia.
 Qed.
+
+(* B3/B4: an upgrade consumes one Tx-level entry and produces one pool-level entry *)
+Definition txp (s : state) (o : option nat) : nat :=
+  match o with Some e => C14_Proofs2.b2n (e_tx (ent s e)) | None => 0 end.
+Definition invB3 (s : state) : Prop :=
+  forall q, count_nat q (s_upg s) + txp s (mlookup (s_map s) q) <= creates q true (s_ents s).
+Definition invB4 (s : state) : Prop :=
+  forall q, count_nat q (s_upg s) <= creates q false (s_ents s).
+
+Lemma e_tx_set_ent s e1 en e :
+  e_tx en = e_tx (ent s e1) -> e_tx (ent (set_ent s e1 en) e) = e_tx (ent s e).
+Proof.
+  intro H. rewrite ent_set_ent. destruct ((e =? e1) && (e1 <? length (s_ents s))) eqn:E; [|reflexivity].
+  apply andb_prop in E. destruct E as [E _]. apply Nat.eqb_eq in E. subst. exact H.
+Qed.
+
+Lemma txp_ext s s' o : (forall e, e_tx (ent s' e) = e_tx (ent s e)) -> txp s' o = txp s o.
+Proof. intro H. destruct o as [e|]; cbn; [rewrite H|]; reflexivity. Qed.
+
+(* after an append, the lookups of the old map still see the old entries *)
+Lemma txp_app s s' x o :
+  (forall e, ent s' e = if e =? length (s_ents s) then x else ent s e) ->
+  (forall e, o = Some e -> e < length (s_ents s)) -> txp s' o = txp s o.
+Proof.
+  intros H Hv. destruct o as [e|]; cbn; [|reflexivity]. rewrite H.
+  specialize (Hv e eq_refl). destruct (e =? length (s_ents s)) eqn:E; [|reflexivity].
+  apply Nat.eqb_eq in E. lia.
+Qed.
+
+Lemma servable_false en b : servable en b = false -> e_tx en = true /\ b = false.
+Proof. unfold servable. destruct (e_tx en), b; cbn; intro H; try discriminate; auto. Qed.
+
+Ltac ent_same := intro; autorewrite with st; try rewrite e_tx_set_ent by reflexivity; reflexivity.
+Ltac ent_app := intro; autorewrite with st; rewrite ent_w_ents_app; reflexivity.
+
+Lemma invB3_step s t th c s' l :
+  nth_error (s_thr s) t = Some th -> step_th s t th c = Some (s', l) -> invB0 s -> invB3 s -> invB3 s'.
+Proof.
+  intros Ht H I0 I q0. specialize (I q0).
+  step_cases H.
+  all: match goal with |- context [txp ?s1 _] =>
+         first [ rewrite (txp_ext s s1) by ent_same | idtac ] end.
+  all: autorewrite with st.
+  all: repeat rewrite creates_app; repeat rewrite count_nat_app; unfold ent_is; cbn [fst snd e_q e_tx].
+  all: repeat rewrite creates_upd_same by reflexivity.
+  all: try exact I.
+  all: try rewrite (mlookup_insert_hit _ _ _ _ _ Heqo).
+  all: rewrite ?mlookup_remove, ?mlookup_insert_some, ?mlookup_empty, ?mlookup_nil;
+    try rewrite (Nat.eqb_sym q0 (cur_q th)) in *; try rewrite <- Heqo0.
+  all: cbn [txp] in *; try lia.
+  all: destruct (cur_q th =? q0) eqn:Eq; [ apply Nat.eqb_eq in Eq; subst q0 | ]; cbn [txp]; try lia.
+  - autorewrite with st. rewrite ent_w_ents_app, Nat.eqb_refl. cbn [e_tx].
+    apply servable_false in Heqb0. destruct Heqb0 as [Htx Hb]. rewrite Heqo in I. cbn [txp] in I.
+    rewrite Htx in I. rewrite Hb. cbn in *. lia.
+  - rewrite (txp_app s _ (mkE (cur_q th) (cur_tx th) None false false)); [cbn [andb C14_Proofs2.b2n]; lia | ent_app |].
+    intros e0 He0. eapply I0; eauto.
+  - autorewrite with st. rewrite ent_w_ents_app, Nat.eqb_refl. cbn [e_tx].
+    rewrite Heqo in I. cbn [txp] in I. destruct (cur_tx th); cbn; lia.
+  - rewrite (txp_app s _ (mkE (cur_q th) (cur_tx th) None false false)); [cbn [andb C14_Proofs2.b2n]; rewrite Heqo0; lia | ent_app |].
+    intros e0 He0. eapply I0; eauto.
+  - rewrite Heqo0. exact I.
+  - rewrite Heqo0. exact I.
+Qed.
+
+Lemma creates_mono_upd q b s e en :
+  e_q en = e_q (ent s e) -> e_tx en = e_tx (ent s e) ->
+  creates q b (s_ents s) <= creates q b (upd (s_ents s) e en).
+Proof. intros. rewrite creates_upd_same; auto. Qed.
+
+Lemma invB4_step s t th c s' l :
+  nth_error (s_thr s) t = Some th -> step_th s t th c = Some (s', l) -> invB4 s -> invB4 s'.
+Proof.
+  intros Ht H I q0. specialize (I q0).
+  step_cases H.
+  all: autorewrite with st.
+  all: repeat rewrite creates_app; repeat rewrite count_nat_app; unfold ent_is; cbn [fst snd e_q e_tx].
+  all: repeat rewrite creates_upd_same by reflexivity.
+  all: try lia.
+  apply servable_false in Heqb0. destruct Heqb0 as [_ Hb]. rewrite Hb.
+  rewrite (Nat.eqb_sym q0). destruct (cur_q th =? q0); cbn; lia.
+Qed.
+
+(* ---- assembly ---- *)
+Record invB (s : state) : Prop := { IB0 : invB0 s; IB1 : invB1 s; IB2 : invB2 s; IB3 : invB3 s; IB4 : invB4 s }.
+
+Lemma cnt_idle f progs : (forall p, f (mkT Idle p []) = false) -> cnt f (map (fun p => mkT Idle p []) progs) = 0.
+Proof. intro H. unfold cnt. induction progs as [|p l IH]; cbn; [reflexivity|]. rewrite H. exact IH. Qed.
+
+Lemma invB_init progs : invB (init progs).
+Proof.
+  split.
+  - intros k e H. cbn in H. discriminate.
+  - intros q b. unfold init; cbn [s_calls s_thr s_ents]. rewrite cnt_idle by reflexivity. reflexivity.
+  - intros q. unfold absent, init; cbn [s_calls s_thr s_ents s_map s_cuts s_fails s_evicts s_upg].
+    rewrite cnt_idle by reflexivity. cbn. lia.
+  - intros q. cbn. lia.
+  - intros q. cbn. lia.
+Qed.
+
+Lemma invB_reach progs s : reach progs s -> invB s.
+Proof.
+  apply reach_ind; [apply invB_init|].
+  intros s0 t c s1 [I0 I1 I2 I3 I4] H. apply step_inv in H. destruct H as [th [l [Ht H]]].
+  split.
+  - eapply invB0_step; eauto.
+  - eapply invB1_step; eauto.
+  - eapply invB2_step; eauto.
+  - eapply invB3_step; eauto.
+  - eapply invB4_step; eauto.
+Qed.
+
+Lemma count_calls_split q l : count_calls q l = count_tx q true l + count_tx q false l.
+Proof.
+  unfold count_calls, count_tx. induction l as [|[a b] l IH]; cbn; [reflexivity|].
+  destruct (a =? q), b; cbn; lia.
+Qed.
+
+Lemma all_done_cnt f s : (forall th, thread_done th = true -> f th = false) -> all_done s = true -> cnt f (s_thr s) = 0.
+Proof.
+  intros Hf. unfold all_done, cnt. induction (s_thr s) as [|x l IH]; cbn; [reflexivity|].
+  intro H. apply andb_prop in H. destruct H as [H1 H2]. rewrite (Hf _ H1). auto.
+Qed.
+
+(* the bound with the ghost upgrade log: holds in EVERY reachable state *)
+Lemma single_prepare_ghost progs s q :
+  reach progs s ->
+  count_calls q (s_calls s) <= 1 + s_cuts s + count_nat q (s_fails s) + count_nat q (s_evicts s) + count_nat q (s_upg s).
+Proof.
+  intro Hr. destruct (invB_reach _ _ Hr) as [_ I1 I2 _ _].
+  rewrite count_calls_split. pose proof (I1 q true). pose proof (I1 q false). specialize (I2 q). lia.
+Qed.
+
+(* the bound the checker evaluates on the observed history: at quiescence *)
+Lemma single_prepare progs s :
+  reach progs s -> all_done s = true ->
+  count_ok (s_calls s) (s_fails s) (s_evicts s) (s_cuts s) = true.
+Proof.
+  intros Hr Hd. destruct (invB_reach _ _ Hr) as [_ I1 I2 I3 I4].
+  unfold count_ok. apply forallb_forall. intros q _. apply Nat.leb_le.
+  assert (Z : forall b, cnt (at_p9 q b) (s_thr s) = 0).
+  { intro b. apply all_done_cnt; [|exact Hd]. intros th H. unfold thread_done in H. unfold at_p9.
+    destruct (t_pc th); try discriminate; reflexivity. }
+  pose proof (I1 q true) as T. pose proof (I1 q false) as F. rewrite Z in T, F.
+  specialize (I2 q). specialize (I3 q). specialize (I4 q).
+  rewrite count_calls_split. lia.
+Qed.
+
+(* an entry (hence a Prepare call) is published only while no entry able to serve the request
+   is in the map *)
+Lemma publish_only_when_unserved s t th c s' l :
+  step_th s t th c = Some (s', l) -> length (s_ents s) < length (s_ents s') ->
+  t_pc th = P6 /\ match mlookup (s_map s) (cur_q th) with
+                  | Some e => servable (ent s e) (cur_tx th) = false
+                  | None => True
+                  end.
+Proof.
+  intros H Hl. step_cases H.
+  all: autorewrite with st in Hl; try rewrite upd_length in Hl; try lia.
+  all: split; auto.
+Qed.
